@@ -1274,6 +1274,110 @@ def child_case(i):
 
 
 # ---- main --------------------------------------------------------------------------------------
+# ---- class factories: distinct classes that share module and qualified name ----------------------------
+_FACTORY_MARKS = [int, str, bytes, float, list]
+
+
+def factory_case(rng):
+    """A class factory (type(name, bases, ns) / a class statement in a function) called several times yields distinct
+    classes with the same module and qualified name, each with differently annotated members, under a base that is
+    decorated, undecorated or defines __sizeof__.  Decorating the n-th such class must still equal decorating its
+    members (the per-class "already decorated" bookkeeping must be per class object, not per name)."""
+    conf_name = pick_conf(rng)
+    bt = make_bt(conf_name)
+    findings, counts = [], {}
+    base_kind = rng.choice(('decorated', 'decorated', 'plain', 'python-sizeof', 'none'))
+    modname = f'{GEN}factory_{os.getpid()}'
+
+    def mk_func(name, T, qual):
+        if name == 'prop':
+            def f(self):
+                return self._v
+            f.__annotations__ = {'return': T}
+        elif name == 'sm':
+            def f(a):
+                return a
+            f.__annotations__ = {'a': T, 'return': T}
+        else:
+            def f(self, a):
+                return a
+            f.__annotations__ = {'a': T, 'return': T}
+        f.__name__, f.__qualname__, f.__module__ = name, f'{qual}.{name}', modname
+        return f
+
+    class Base0:
+        def ping(self, a: int) -> int:
+            return a
+    Base0.__module__, Base0.__qualname__ = modname, 'Base0'
+    if base_kind == 'python-sizeof':
+        Base0.__sizeof__ = lambda self: 64
+    sink = io.StringIO()
+    with contextlib.redirect_stdout(sink), warnings.catch_warnings():
+        warnings.simplefilter('ignore')
+        try:
+            Base = bt(Base0) if base_kind == 'decorated' else Base0
+        except Exception:   # noqa
+            return dict(findings=[], counts={'factory_base_decoration_failed(info)': 1}, witness={}, distinct=None)
+        bases = () if base_kind == 'none' else (Base,)
+        Ts = [rng.choice(_FACTORY_MARKS) for _ in range(rng.choice((2, 3, 4)))]
+        members = rng.sample(['conv', 'cm', 'sm', 'prop'], rng.choice((1, 2, 3, 4)))
+        made = []
+        for gen_i, T in enumerate(Ts):
+            pair = {}
+            for route in 'AB':
+                ns = {'__module__': modname, '__qualname__': 'Impl'}
+                for m in members:
+                    f = mk_func(m, T, 'Impl')
+                    if route == 'B':
+                        f = bt(f)
+                    ns[m] = classmethod(f) if m == 'cm' else staticmethod(f) if m == 'sm' else property(f) if m == 'prop' else f
+                cls = type('Impl', bases, ns)
+                try:
+                    if route == 'A':
+                        cls = bt(cls)
+                except Exception as e:   # noqa
+                    findings.append((f'factory:decoration-raised:{type(e).__name__}',
+                                     f'class {gen_i + 1} of the factory (members over {T.__name__}, base {base_kind}, conf {conf_name}) '
+                                     f'raised {short(e, 200)}'))
+                    cls = None
+                pair[route] = cls
+            made.append((T, pair))
+        for gen_i, (T, pair) in enumerate(made):
+            if pair['A'] is None:
+                continue
+            good = {int: 3, str: 's', bytes: b'b', float: 1.5, list: [1]}[T]
+            bad = {int: 's', str: 3, bytes: 's', float: 's', list: 3}[T]
+            for m in members:
+                for val, vname_ in ((good, 'satisfying'), (bad, 'violating')):
+                    outs = {}
+                    for route in 'AB':
+                        inst = object.__new__(pair[route])
+                        inst._v = val
+                        try:
+                            if m == 'prop':
+                                inst.prop
+                            elif m == 'sm':
+                                pair[route].sm(val)
+                            elif m == 'cm':
+                                pair[route].cm(val)
+                            else:
+                                inst.conv(val)
+                            outs[route] = 'ok'
+                        except Exception as e:   # noqa
+                            outs[route] = 'violation' if 'Violation' in type(e).__name__ or type(e) is MyViol else 'raised:' + type(e).__name__
+                    counts['factory_calls_compared'] = counts.get('factory_calls_compared', 0) + 1
+                    if outs['A'] != outs['B']:
+                        findings.append((f'factory:route-outcomes-differ:class-{min(gen_i + 1, 2)}{"+" if gen_i else ""}',
+                                         f'class {gen_i + 1} made by the factory (same module and qualified name "Impl", members over '
+                                         f'{T.__name__}, base {base_kind}, conf {conf_name}): {m}({vname_} value) -> class-decorated '
+                                         f'{outs["A"]}, member-decorated {outs["B"]}'))
+    counts['factory_cases'] = 1
+    counts['factory_base.' + base_kind] = 1
+    return dict(findings=findings[:3], counts=counts,
+                witness=dict(conf=conf_name, base=base_kind, members=members, marks=[t.__name__ for t in Ts]),
+                distinct=('factory', conf_name, base_kind, tuple(members), tuple(t.__name__ for t in Ts)))
+
+
 def absorb(W, stream, idx, res):
     for k, n in res['counts'].items():
         W.count(k, n)
@@ -1311,7 +1415,7 @@ def main():
             W.evaluate(res['distinct'])
             absorb(W, 'directed', i, res)
 
-    for stream, fn, frac in (('noop', noop_case, .2), ('cls', class_case, 1.0)):
+    for stream, fn, frac in (('noop', noop_case, .2), ('factory', factory_case, .3), ('cls', class_case, 1.0)):
         lim = limit if stream == 'cls' else (3000 if W.quick else 200000)
         for idx in W.cases(stream, lim, frac):
             rng = W.rng(stream, idx)
@@ -1336,6 +1440,8 @@ def main():
                               calls=res['witness']['calls'][:6]))
             absorb(W, stream, idx, res)
 
+    W.need('factory_cases', 50)
+    W.need('factory_calls_compared', 500)
     W.need('cls_cases', 300)
     W.need('classes_generated', 800)
     W.need('classes_decorated_posthoc', 300)
